@@ -105,9 +105,10 @@ func (m *MTProto) makeAuthKey() error { // nolint don't know how to make method 
 	// this apparently is just part of diffie hellman, so just leave it as it is, hope that it will just work
 	_, gB, gAB := math.MakeGAB(dhi.G, big.NewInt(0).SetBytes(dhi.GA), big.NewInt(0).SetBytes(dhi.DhPrime))
 
+	// auth_key is the number g_ab as 256 big-endian bytes; gAB.Bytes() drops leading zero bytes
 	authKey := gAB.Bytes()
-	if authKey[0] == 0 {
-		authKey = authKey[1:]
+	if len(authKey) < 256 {
+		authKey = append(make([]byte, 256-len(authKey)), authKey...)
 	}
 
 	m.SetAuthKey(authKey)
